@@ -13,8 +13,8 @@ STRUCTURAL = ('attr-count', 'attr-assigned-but-absent', 'attr-unassigned-but-pre
               'set-duplicate', 'set-extra')
 
 
-def strategy():
-    base = dict(vrl=[128, 512, 8192], max_frames=2, max_channels=3, max_rows=4, max_width=3,
+def strategy(must_kind=None):
+    base = dict(must_kind=must_kind, vrl=[128, 512, 8192], max_frames=2, max_channels=3, max_rows=4, max_width=3,
                 meta_kinds=ALL_META + ('no_format',), attr_routes=('kw', 'dict', 'setup', 'later'), units=True,
                 counts_over_127=True, empty_lists=True, full_attrs=True, long_text=1000, hdr_variants=True)
     few = Profile(max_meta=6, **base)
@@ -37,7 +37,11 @@ class C04(Property):
 
     def searches(self, ctx):
         n = 3200 if ctx.tier == 'quick' else 40000
-        return [('eflr', strategy(), n // ctx.nshards)]
+        from vf.core import stratified
+        # half of the budget in one stratum per object type (every set type's template and attributes are reached
+        # whatever the spread of the drawn kinds)
+        return [('eflr', strategy(), (n // 2) // ctx.nshards)] + \
+            stratified('type', strategy, ALL_META + ('no_format',), n // 2, ctx)
 
     def run(self, spec, ctx):
         r, dec, ferr = specrun.write_and_decode(spec, ctx)
